@@ -34,6 +34,7 @@ EXPLANATION = (
     "touches the flag; the service-info helper closes through the manager, only if no instance existed before the lookup "
     "(snapshot taken before the instance is requested), on every exit. R4: host_is_name_part / address_is_local are "
     "evaluated by the checker on a table of addresses. Resolver outcomes for all inputs as behaviour are not decided."
+    ' Added: every failure of mDNS start-up, service-info construction and request surfaces as ResolveAPIError; a half-written instance/flag pair is rejected at exceptional exits too; constant regular expressions in the address classifiers are evaluated over an extended address table.'
 )
 ASSUMPTIONS = ["ipaddress.ip_address raises ValueError for non-literals and performs no lookup", "zeroconf's AsyncZeroconf.async_close is the only way an instance is closed", "M1-M5 of DESIGN.md section 2"]
 
